@@ -39,7 +39,18 @@ SAFE_DEFS = {"a": {"type": ["string", "null"], "enum": ["s", None]}, "b": {"mini
 @st.composite
 def cases(draw):
     d = draw(st.sampled_from(impl.DRAFTS))
-    src = draw(st.integers(0, 12))
+    src = draw(st.integers(0, 13))
+    if src == 13:
+        # references to documents elsewhere, retrieved through a handler that fails in some way of its own
+        s = {"properties": {k: {"$ref": draw(st.sampled_from(REMOTE_REFS))}
+                            for k in draw(st.lists(V.small_keys, min_size=1, max_size=3, unique=True))}}
+        if draw(st.booleans()):
+            s["additionalProperties"] = {"$ref": draw(st.sampled_from(REMOTE_REFS))}
+        if draw(st.booleans()):
+            s[impl.IDKW[d]] = "http://ex.test/root/schema.json"
+        xs = [draw(st.dictionaries(V.small_keys, hostile_scalar, min_size=1, max_size=4)) for _ in range(3)]
+        return {"draft": d, "schema": s, "instances": xs, "flavour": "failing-handler", "probes": 0,
+                "handler": draw(st.sampled_from(sorted(HANDLER_FAILURES)))}
     if src == 12:
         # a format keyword met by strings that are hostile to format parsers (long digit runs, huge fields, NUL ...)
         from . import c13
@@ -90,6 +101,36 @@ def cases(draw):
         else:
             xs.append(draw(deep()))
     return {"draft": d, "schema": s, "instances": xs, "flavour": flavour, "probes": 12}
+
+
+REMOTE_REFS = ["http://ex.test/other.json", "http://ex.test/other.json#/definitions/a", "other.json#", "sub/other.json",
+               "https://ex.test/x", "urn:example:doc", "file:///nonexistent/verif.json", "//ex.test/other.json"]
+
+
+class HandlerFailure(Exception):
+    pass
+
+
+def _raiser(kind):
+    def handler(uri):
+        raise HANDLER_FAILURES[kind]
+    return handler
+
+
+HANDLER_FAILURES = {"ValueError": ValueError("no JSON here"), "KeyError": KeyError("uri"), "TypeError": TypeError("bad"),
+                    "OSError": OSError("unreachable"), "Custom": HandlerFailure("custom"),
+                    "UnicodeDecodeError": UnicodeDecodeError("utf-8", b"\xff", 0, 1, "invalid start byte"),
+                    "LookupError": LookupError("nothing")}
+
+
+def only_remote_refs(s):
+    if not isinstance(s, dict) or set(s) - {"properties", "additionalProperties", "id", "$id"}:
+        return False
+    subs = list(s["properties"].values()) if isinstance(s.get("properties"), dict) else []
+    if "additionalProperties" in s:
+        subs.append(s["additionalProperties"])
+    return bool(subs) and all(isinstance(e, dict) and set(e) == {"$ref"} and e["$ref"] in REMOTE_REFS for e in subs) and all(
+        s.get(k, "http://ex.test/root/schema.json") == "http://ex.test/root/schema.json" for k in ("id", "$id"))
 
 
 def risky_ref(v):
@@ -172,20 +213,27 @@ def allowed(d):
     return tuple(ok)
 
 
-def entry_points(cls, s, x, fc):
+def entry_points(cls, s, x, fc, handler=None):
     """Run every entry point; yield (name, exception-or-None)."""
+    def kw():
+        if handler is None:
+            return {"format_checker": fc}
+        h = _raiser(handler)
+        return {"format_checker": fc, "resolver": impl.validators.RefResolver.from_schema(
+            s, id_of=cls.ID_OF, handlers={"http": h, "https": h, "urn": h, "file": h, "": h})}
+
     def ep_is_valid():
-        cls(s, format_checker=fc).is_valid(x)
+        cls(s, **kw()).is_valid(x)
 
     def ep_iter_errors():
-        for e in cls(s, format_checker=fc).iter_errors(x):
+        for e in cls(s, **kw()).iter_errors(x):
             str(e)
 
     def ep_validate():
-        cls(s, format_checker=fc).validate(x)
+        cls(s, **kw()).validate(x)
 
     def ep_module_validate():
-        impl.jsonschema.validate(x, s, cls=cls, format_checker=fc)
+        impl.jsonschema.validate(x, s, cls=cls, **kw())
 
     for name, f in (("is_valid", ep_is_valid), ("iter_errors", ep_iter_errors), ("validate", ep_validate),
                     ("jsonschema.validate", ep_module_validate)):
@@ -197,12 +245,12 @@ def entry_points(cls, s, x, fc):
             yield name, None
 
 
-def judge(res, d, s, x, fcs=("none", "default", "draft")):
+def judge(res, d, s, x, fcs=("none", "default", "draft"), handler=None):
     cls = impl.CLS[d]
     ok = allowed(d)
     for fcn in fcs:
         fc = {"none": None, "default": impl.jsonschema.FormatChecker(), "draft": impl.DRAFT_CHECKERS[d]}[fcn]
-        for name, exc in entry_points(cls, s, x, fc):
+        for name, exc in entry_points(cls, s, x, fc, handler):
             res.evals += 1
             if exc is None or isinstance(exc, ok):
                 if exc is not None and not isinstance(exc, impl.exceptions.ValidationError):
@@ -219,7 +267,7 @@ class C03(Prop):
     QUICK = 500
     THOROUGH = 12000
     RULE = ("case = (draft, schema from the liberal grammar (odd / degenerate / arbitrary keyword values) or the "
-            "well-meant grammar, kept only if check_schema accepts it; 3 drawn hostile instances (huge and tiny "
+            "well-meant grammar, or references served by a handler that fails in one of 7 ways, kept only if check_schema accepts it; 3 drawn hostile instances (huge and tiny "
             "numbers, deep nesting <= 12, format-hostile strings) plus 12 schema-derived probes); every pair is run "
             "through is_valid, iter_errors (+str of each error), validate and jsonschema.validate, each with no "
             "format checker, FormatChecker() and the draft's checker; only ValidationError, RefResolutionError and "
@@ -231,7 +279,7 @@ class C03(Prop):
                    "containing $ref are excluded (cycles / non-string $ref are outside the claim)",
                    "nesting deeper than 12 levels and integers beyond 4000 digits are not generated (CPython limits)",
                    "hangs are only detected by a 90 s per-case watchdog and reported as inconclusive"]
-    GATES = {"accepted:liberal": 500, "accepted:well-meant": 500, "unusual": 300, "accepted:safe-refs": 200,
+    GATES = {"accepted:liberal": 500, "accepted:well-meant": 500, "unusual": 300, "accepted:safe-refs": 200, "accepted:failing-handler": 150,
              "raised:RefResolutionError": 100}
     MIN_NONTRIVIAL = 300
 
@@ -243,7 +291,13 @@ class C03(Prop):
         res.evals = 0
         d, s = case["draft"], case["schema"]
         cls = impl.CLS[d]
-        if risky_ref(s) and not (case.get("flavour") == "safe-refs" and only_safe_refs(s)):
+        handler = None
+        if case.get("flavour") == "failing-handler":
+            handler = case.get("handler")
+            if handler not in HANDLER_FAILURES or not only_remote_refs(s):
+                res.excluded = "malformed-case"
+                return res
+        elif risky_ref(s) and not (case.get("flavour") == "safe-refs" and only_safe_refs(s)):
             res.excluded = "contains-$ref"
             return res
         if bad_regex(s):
@@ -266,7 +320,7 @@ class C03(Prop):
         if un:
             res.labels.append("unusual")
         for i, x in enumerate(xs):
-            judge(res, d, s, x, ("none", "default", "draft") if i < 4 else ("none",))
+            judge(res, d, s, x, ("none", "default", "draft") if i < 4 else ("none",), handler)
         res.nontrivial = un or any(not isinstance(x, (str, bool, type(None))) and not (
             isinstance(x, (int, float)) and abs(x) < 2 ** 53) for x in case["instances"])
         return res
